@@ -55,8 +55,14 @@ type Store struct {
 	// OnBalances, if set, is called at the start of GetBalances (used to overlap concurrent
 	// runs).
 	OnBalances func()
-	// Foreign: extra content returned by Superset stores only.
-	static *numscript.StaticStore
+	// Keep: remember every returned map together with a rendering taken at return time, so
+	// that ReturnedUnchanged can tell whether the caller wrote into them.
+	Keep        bool
+	keptBal     []numscript.Balances
+	keptBalTxt  []string
+	keptMeta    []numscript.AccountsMetadata
+	keptMetaTxt []string
+	static      *numscript.StaticStore
 }
 
 func CopyBalances(b map[string]map[string]*big.Int) map[string]map[string]*big.Int {
@@ -191,7 +197,26 @@ func (s *Store) GetBalances(ctx context.Context, q numscript.BalanceQuery) (nums
 	}
 	call.Returned = renderBalances(out)
 	s.Calls = append(s.Calls, call)
+	if s.Keep {
+		s.keptBal = append(s.keptBal, out)
+		s.keptBalTxt = append(s.keptBalTxt, fmt.Sprint(renderBalances(out)))
+	}
 	return out, nil
+}
+
+// ReturnedUnchanged compares every map the store handed out with its rendering at return time.
+func (s *Store) ReturnedUnchanged() string {
+	for i, b := range s.keptBal {
+		if now := fmt.Sprint(renderBalances(b)); now != s.keptBalTxt[i] {
+			return fmt.Sprintf("balances returned by store call were %s and are now %s", s.keptBalTxt[i], now)
+		}
+	}
+	for i, b := range s.keptMeta {
+		if now := fmt.Sprint(b); now != s.keptMetaTxt[i] {
+			return fmt.Sprintf("metadata returned by store call was %s and is now %s", s.keptMetaTxt[i], now)
+		}
+	}
+	return ""
 }
 
 func (s *Store) GetAccountsMetadata(ctx context.Context, q numscript.MetadataQuery) (numscript.AccountsMetadata, error) {
@@ -229,6 +254,10 @@ func (s *Store) GetAccountsMetadata(ctx context.Context, q numscript.MetadataQue
 	}
 	call.Returned = ret
 	s.Calls = append(s.Calls, call)
+	if s.Keep {
+		s.keptMeta = append(s.keptMeta, out)
+		s.keptMetaTxt = append(s.keptMetaTxt, fmt.Sprint(out))
+	}
 	return out, nil
 }
 
@@ -364,13 +393,18 @@ func Run(pr numscript.ParseResult, vars map[string]string, flags map[string]stru
 		o.Panicked, o.PanicVal, o.Frame = true, fmt.Sprint(v), fr
 		return o
 	}
+	fill(o, res, err)
+	return o
+}
+
+func fill(o *Outcome, res numscript.ExecutionResult, err numscript.InterpreterError) {
 	if err != nil {
 		o.Err = err
 		o.Class = Classify(err)
 		if res.Postings != nil || res.Metadata != nil || res.AccountsMetadata != nil {
 			o.NonZeroOnError = true
 		}
-		return o
+		return
 	}
 	for _, p := range res.Postings {
 		amt := p.Amount
@@ -387,7 +421,13 @@ func Run(pr numscript.ParseResult, vars map[string]string, flags map[string]stru
 			o.AcctMeta[a][k] = v
 		}
 	}
-	return o
+}
+
+// Summarize renders a raw (result, error) pair like Outcome.Summary.
+func Summarize(res numscript.ExecutionResult, err numscript.InterpreterError) string {
+	o := &Outcome{}
+	fill(o, res, err)
+	return o.Summary()
 }
 
 // RunCase executes a case with a fresh store of the given kind.
